@@ -26,6 +26,10 @@ type c33Op struct {
 	Kind  string  // "run", "crun" (concurrent runs), "evict"
 	Roots [][]int // run: one root list; crun: one per concurrent Run
 	Keys  []int   // evict
+	// race only: 0 = the versions are bumped, then Evict races with the Run; 1 = EvictWithCleanup races with the
+	// Run and the versions are bumped INSIDE the cleanup (the documented way to change an input atomically);
+	// 2 = like 1, after everything has been evicted, so that the Run is the one that creates the keys
+	Mode int `json:",omitempty"`
 }
 
 type c33Case struct {
@@ -288,8 +292,17 @@ func c33Check(c c33Case, r *ev.Rec) error {
 			// be served. Execution counts are not predictable here and are not asserted for this step.
 			var keys []any
 			for _, k := range op.Keys {
-				sys.version[k].Add(1)
+				if op.Mode == 0 {
+					sys.version[k].Add(1)
+				}
 				keys = append(keys, c33Key{sys, k})
+			}
+			if op.Mode == 2 {
+				var allKeys []any
+				for i := 0; i < c.N; i++ {
+					allKeys = append(allKeys, c33Key{sys, i})
+				}
+				exec.Evict(allKeys...)
 			}
 			var rerr error
 			fin, dump := withWatchdog(20*time.Second, func() {
@@ -310,7 +323,15 @@ func c33Check(c c33Case, r *ev.Rec) error {
 				go func() {
 					defer wg.Done()
 					<-start
-					exec.Evict(keys...)
+					if op.Mode == 0 {
+						exec.Evict(keys...)
+						return
+					}
+					exec.EvictWithCleanup(keys, func() {
+						for _, k := range op.Keys {
+							sys.version[k].Add(1)
+						}
+					})
 				}()
 				close(start)
 				wg.Wait()
@@ -532,7 +553,7 @@ func c33Gen(t *rapid.T) c33Case {
 			}
 			c.Ops = append(c.Ops, c33Op{Kind: "panic", Roots: [][]int{roots}, Keys: keys})
 		case 7:
-			c.Ops = append(c.Ops, c33Op{Kind: "race", Roots: [][]int{subset("raceroot", 1)}, Keys: subset("racekeys", 1)})
+			c.Ops = append(c.Ops, c33Op{Kind: "race", Roots: [][]int{subset("raceroot", 1)}, Keys: subset("racekeys", 1), Mode: gen.Pick(t, []int{0, 1, 2, 2}, "racemode")})
 		default:
 			c.Ops = append(c.Ops, c33Op{Kind: "evict", Keys: subset("evict", 1)})
 		}
@@ -542,7 +563,7 @@ func c33Gen(t *rapid.T) c33Case {
 
 func TestC33_Histories(t *testing.T) {
 	ev.Run(t, ev.Spec[c33Case]{ID: "C33", Name: "Histories", Quick: 1500, Thorough: 60000,
-		Rule: "random DAGs of 2-8 deterministic queries (value = hash of the node's version and its children's values; children resolved in 1-3 Resolve batches; generated processor yields around the Resolve calls) on one long-lived executor with parallelism 1-8, driven by a generated history of 2-8 operations: Run(root set), 2-4 concurrent Runs released together, Evict(key set) after bumping those keys' versions, Evict racing with a Run, and a query that panics once after resolving its children followed by repair and eviction of (usually) one of its children (after either, everything is requested again and must be fresh and free of failures); reference model: a set of memoized keys (a Run adds what it needed; Evict removes the keys and every memoized transitive dependent); oracle after every Run step: each root value equals a fresh recursive computation on the current versions; per-key execution counters advanced by exactly 1 for needed keys outside the model's memoized set and by 0 otherwise (also across concurrent Runs: one execution in total); no key executes twice at the same time; Result.Changed, as seen by every Resolve caller and on Run's own results, is true exactly when the key was computed in this step by the observing Run; race detector on; non-trivial = history with concurrent Runs sharing a key that had to be computed and an eviction that takes a memoized dependent with it; distinct by case",
+		Rule: "random DAGs of 2-8 deterministic queries (value = hash of the node's version and its children's values; children resolved in 1-3 Resolve batches; generated processor yields around the Resolve calls) on one long-lived executor with parallelism 1-8, driven by a generated history of 2-8 operations: Run(root set), 2-4 concurrent Runs released together, Evict(key set) after bumping those keys' versions, Evict racing with a Run (versions bumped before a plain Evict, or inside the cleanup of EvictWithCleanup, also when the Run is the one that first creates the evicted keys), and a query that panics once after resolving its children followed by repair and eviction of (usually) one of its children (after either, everything is requested again and must be fresh and free of failures); reference model: a set of memoized keys (a Run adds what it needed; Evict removes the keys and every memoized transitive dependent); oracle after every Run step: each root value equals a fresh recursive computation on the current versions; per-key execution counters advanced by exactly 1 for needed keys outside the model's memoized set and by 0 otherwise (also across concurrent Runs: one execution in total); no key executes twice at the same time; Result.Changed, as seen by every Resolve caller and on Run's own results, is true exactly when the key was computed in this step by the observing Run; race detector on; non-trivial = history with concurrent Runs sharing a key that had to be computed and an eviction that takes a memoized dependent with it; distinct by case",
 		Gen:  c33Gen, Check: c33Check})
 }
 
